@@ -126,6 +126,22 @@ package model
 //@   opt alloc=1
 //@   modifies alloc, fresh GoValueNode.*
 //@   ensures[C01,C02,C04] entry: err == nil ==> vn != nil && typeof(vn) == typeid(*GoValueNode) && as(vn, *GoValueNode).thisValue == rv_mapindex(node.thisValue, index)
+// struct fields (the commonest read: F.A): the field of the struct the node's value denotes - directly, behind a pointer, or inside a
+// non-nil interface holding either (objOf, the same unwrapping the field SETTER is specified with)
+//@ func (node *GoValueNode) IsObject() (r)
+//@   requires node != nil
+//@   modifies
+//@ func (node *GoValueNode) GetObjectValueByField(field) (val, err)
+//@   serves C01 C02 C04
+//@   requires node != nil
+//@   modifies
+//@   ensures[C01,C02,C04] field: err == nil ==> val == rv_field(objOf(node.thisValue), field)
+//@ func (node *GoValueNode) GetChildNodeByField(field) (vn, err)
+//@   serves C01 C02 C04
+//@   requires node != nil
+//@   opt alloc=1
+//@   modifies alloc, fresh GoValueNode.*
+//@   ensures[C01,C02,C04] field: err == nil ==> vn != nil && typeof(vn) == typeid(*GoValueNode) && as(vn, *GoValueNode).thisValue == rv_field(objOf(node.thisValue), field)
 // diagnostic name of a node (used in error messages only): ASSUMED effect-free and panic-free
 //@ extern func (node *GoValueNode) IdentifiedAs() (s)
 //@   nopanic
